@@ -16,7 +16,7 @@ func parseJSONText(s string) (interface{}, error) {
 // Typed universes for the function streams.
 var fnNums = []string{`0`, `1`, `-1`, `2`, `2`, `0.5`, `-2.5`, `3.7`, `-3.2`, `100`, `1e21`, `1e-7`}
 var fnStrs = []string{`""`, `"a"`, `"b"`, `"ab"`, `"abc"`, `"ba"`, `"héllo"`, `"世界😀"`, `"1"`, `"-2.5"`, `"1e2"`, `" 1"`, `"0x10"`, `"inf"`, `"-inf"`, `"nan"`, `"Infinity"`, `"1e999"`, `"a,b"`, `"<&>"`, `"\\u003c\\u0026"`, `"x\\\\u003ey"`}
-var fnArrs = []string{`[]`, `[1]`, `[2,1]`, `[1,2,2,1]`, `[3,-1,0.5]`, `["b","a"]`, `["a","ab",""]`, `["","a"]`, `["",""]`, `["é","z","a"]`, `[1,"a"]`, `[[1],[2]]`, `[[1,2],[3]]`, `[null,1]`,
+var fnArrs = []string{`[1.75,1.25,2.5,1.5,2.75]`, `[{"a":1.75,"n":0},{"a":1.25,"n":1},{"a":1.5,"n":2},{"a":1.25,"n":3}]`, `[]`, `[1]`, `[2,1]`, `[1,2,2,1]`, `[3,-1,0.5]`, `["b","a"]`, `["a","ab",""]`, `["","a"]`, `["",""]`, `["é","z","a"]`, `[1,"a"]`, `[[1],[2]]`, `[[1,2],[3]]`, `[null,1]`,
 	`[{"a":2,"n":0},{"a":1,"n":1},{"a":2,"n":2},{"a":1,"n":3}]`, `[{"a":"y"},{"a":"x"},{"a":"y"}]`, `[{"a":1},{"a":"x"}]`, `[{"a":1},{}]`, `[{"a":null}]`, `[[1]]`, `[{"a":[1]}]`}
 var fnObjs = []string{`{}`, `{"a":1}`, `{"a":2,"b":3}`, `{"b":4,"c":5}`, `{"a":null}`, `{"a":{"x":1}}`, `{"":0}`, `{"é":1,"a":[1]}`}
 var fnRefs = []string{`&a`, `&@`, `&n`, "&`1`", "&`null`", `&a.x`, `&length(@)`, `&abs(a)`, `&to_string(@)`, `&[0]`}
@@ -140,7 +140,7 @@ func streamFn(seed uint64, idx int) caseT {
 			if strKeys {
 				arr[i] = map[string]interface{}{"a": g.r.pick([]string{"x", "y", "z"}), "n": float64(i)}
 			} else {
-				arr[i] = map[string]interface{}{"a": float64(g.r.intn(3)), "n": float64(i)}
+				arr[i] = map[string]interface{}{"a": float64(g.r.intn(3)) + 0.25*float64(g.r.intn(4)), "n": float64(i)}
 			}
 		}
 		doc = map[string]interface{}{"big": arr}
@@ -229,6 +229,7 @@ var errSeeds = []string{"abs(`\"a\"`)", "length(`1`)", "nosuch(@)", "abs()", "`[
 	// by-expression functions whose key expression fails on a LATER element only (the first key is fine)
 	"sort_by(`[3,1,\"x\",2]`, &abs(@))", "sort_by(`[{\"a\":1},{\"a\":2},{\"a\":\"x\"}]`, &abs(a))", "max_by(`[{\"a\":1},{\"a\":\"x\"}]`, &abs(a))", "min_by(`[1,2,3,\"x\",4]`, &abs(@))",
 	"sort_by(`[\"b\",\"a\",1]`, &length(@))", "map(&abs(@), `[1,2,3,4,\"x\"]`)",
+	"max_by(`[{\"a\":3},{\"a\":\"x\"},{\"a\":7}]`, &a)", "min_by(`[10,\"ten\"]`, &@)", "max_by(`[\"a\",1,\"b\"]`, &@)", "(`[1,null,-3]`[].abs(@))", "(`[null,null]`[].nosuch(@))", "(`[[1],null]`[].length(@))",
 	"`null`.abs(@)", "`null`.nosuch(@)", "(`[]`[0].length(@))", "`{}`.k.abs(@)"}
 
 // One-hole contexts in which the hole must be evaluated (document: errDoc).
@@ -659,6 +660,9 @@ func streamCLI(seed uint64, idx int) caseT {
 		// an input larger than any plausible buffer or read limit (5–9 MiB), valid JSON with the interesting part at the END
 		// (line kind XB: the worker builds the input from its size; judged on the implementation alone)
 		n := 5<<20 + g.r.intn(4<<20)
+		if g.r.chance(35) {
+			n = 17<<20 + g.r.intn(16<<20)
+		}
 		expr = g.r.pick([]string{"a", "b[2]", "[a, b]", "length(pad) > `100`"})
 		return caseT{lines: []string{"XB " + g.r.pick([]string{"s", "f"}) + " " + hexField(expr) + " " + strconv.Itoa(n)}}
 	}
@@ -679,6 +683,7 @@ func streamFnSeq(seed uint64, idx int) caseT {
 	arr := make([]interface{}, n)
 	pool := []string{"`null`", "`true`", "`1`", "`\"a\"`", "`[]`", "`[1,2]`", "`[\"a\",\"b\"]`", "`[1,\"a\"]`", "`[{\"a\":1},{\"a\":2}]`", "`{}`", "`{\"a\":1}`", "`[2,1]`", "`[[1,2],[1,\"a\"]]`", "`\"\"`", "`2.5`",
 		// by-expression keys that are containers (equal ones, after a number or string key) or booleans / nulls
+		"`[{\"a\":1},{\"a\":\"x\"},{\"a\":3},{\"a\":2}]`", "`[{\"a\":\"p\"},{\"a\":1},{\"a\":\"z\"},{\"a\":\"b\"}]`", "`[{\"a\":3},{\"a\":\"x\"},{\"a\":7}]`", "`{\"b\":2}`", "`{\"a\":3,\"c\":4}`",
 		"`[{\"a\":1},{\"a\":[0]},{\"a\":[0]}]`", "`[{\"a\":\"x\"},{\"a\":{}},{\"a\":{}}]`", "`[{\"a\":1},{\"a\":null},{\"a\":null}]`", "`[{\"a\":2},{\"a\":1},{\"a\":true},{\"a\":true}]`", "`[1,\"a\",\"a\"]`"}
 	for i := range arr {
 		arr[i] = mustJSON(strings.Trim(pool[g.r.intn(len(pool))], "`"))
@@ -692,6 +697,15 @@ func streamFnSeq(seed uint64, idx int) caseT {
 		}
 	}
 	call := sig.name + "(@" + second + ")"
+	if sig.name == "merge" && g.r.chance(50) {
+		// an empty (or small) literal object first: it lives in the AST and must not collect what later calls merge into it
+		first := g.r.pick([]string{"`{}`", "`{}`", "`{\"z\":0}`", "{}"})
+		if first == "{}" {
+			first = "`{}`"
+		}
+		e := g.r.pick([]string{"[*].merge(" + first + ", @)", "[merge(" + first + ", @[0]), merge(" + first + ", @[1]), merge(" + first + ", @[0])]", "map(&merge(" + first + ", @, " + first + "), @)"})
+		return caseT{lines: []string{"S " + hexField(e) + " " + canonOf([]interface{}{map[string]interface{}{"a": 1.0}, map[string]interface{}{"b": 2.0}, map[string]interface{}{"a": 3.0}})}}
+	}
 	if sig.varia && g.r.chance(60) {
 		// variadic functions: different argument counts in one Search, the longer call first or last
 		k := 1 + g.r.intn(4)
